@@ -2,13 +2,17 @@
    is about (DESIGN.md 5.1 F15).
 
    InMemoryMetaData.signed() (mdstore.py) looks at the Signature child of the
-   parsed ROOT object; parse_and_check_signature then calls
+   parsed ROOT object; parse_and_check_signature then (repair "metadata
+   signature must be the root element's own", proposed_fix/C16-3) asks
+   sigver._enveloped_signature_ok(txt, node_name, root.id, id_attr,
+   whole_document_ok=True) - md_precheck below - and only then calls
    security.verify_signature(txt, node_name=..., cert_file=cert) with NO
    node_id, i.e. `xmlsec1 --verify --pubkey-cert-pem cert --id-attr:ID <name>`
    without --node-id: the tool (Model/Xmlsec.v, tool_verify with i = None)
    processes the FIRST ds:Signature in document order below the document
    element, and each Reference of it may point at any element with a
-   registered ID.  Documents are the symbolic trees of Model/Xmlsec.v.
+   registered ID.  The `_before_fix` definitions are the loader without the
+   pre-check.  Documents are the symbolic trees of Model/Xmlsec.v.
    Definitions only. *)
 From PV Require Import Lib.Base Model.Xmlsec Model.MdStore.
 Open Scope N_scope.
@@ -44,9 +48,58 @@ Definition sig_verifies (doc : tree) (nm : N) (ps : path) (cert : N) : bool :=
   | _ => false
   end.
 
-(* the verification call of parse_and_check_signature: no --node-id.  The
-   xmlsec1 backend raises when the tool does not print OK (C20). *)
-Definition md_verdict (dupfail : bool) (doc : tree) (nm cert : N) : result bool :=
+(* every element carrying an ID, whatever its name, with its absolute path, in document order *)
+Fixpoint all_ids (t : tree) (here : path) : list (str * path) :=
+  match t with
+  | Sg _ _ _ => []
+  | El _ i _ kids =>
+      (match i with Some v => [(v, here)] | None => [] end) ++
+      (fix go (l : list tree) (k : nat) : list (str * path) :=
+         match l with
+         | [] => []
+         | c :: r => all_ids c (here ++ [k]) ++ go r (S k)
+         end) kids O
+  end.
+
+(* sigver._enveloped_signature_ok(..., whole_document_ok=True) about the document
+   element: the first ds:Signature in document order of the whole document is a
+   direct child of the root and the root's only Signature child; its SignedInfo
+   has exactly one Reference, whose URI is "" (the whole document) or "#" + the
+   root's ID, that ID non-empty and carried by no other element.  The element
+   name is not compared. *)
+Definition md_precheck (doc : tree) : bool :=
+  match doc with
+  | Sg _ _ _ => false
+  | El _ i _ kids =>
+      match first_sig doc with
+      | Some [k] =>
+          Nat.eqb (count_sigs kids) 1 &&
+          match nth_error kids k with
+          | Some (Sg [(u, _)] _ _) =>
+              match u with
+              | [] => true
+              | _ => match i with
+                     | Some v => negb (match v with [] => true | _ => false end) && str_eqb u (HASH :: v) &&
+                                 Nat.eqb (List.length (with_id v (all_ids doc []))) 1
+                     | None => false
+                     end
+              end
+          | _ => false
+          end
+      | _ => false
+      end
+  end.
+
+(* the verification of parse_and_check_signature: pre-check, then the tool with
+   no --node-id.  A refused pre-check raises SignatureError; the xmlsec1 backend
+   raises when the tool does not print OK (C20). *)
+Definition md_verdict_prechecked (dupfail : bool) (doc : tree) (nm cert : N) : result bool :=
+  if md_precheck doc then
+    if tool_verify dupfail doc nm None cert then Ok true else Err SignatureError
+  else Err SignatureError.
+
+(* BEFORE the repair: the tool alone *)
+Definition md_verdict_before_fix (dupfail : bool) (doc : tree) (nm cert : N) : result bool :=
   if tool_verify dupfail doc nm None cert then Ok true else Err SignatureError.
 
 (* THE PROPERTY'S NOTION of "that signature verifies": a Signature that is a
@@ -71,28 +124,15 @@ Definition own_signature_ok (doc : tree) (nm cert : N) : bool :=
   | Sg _ _ _ => false
   end.
 
-(* the shape under which the tool's choice IS the root's own signature: the
-   first ds:Signature in document order is a child of the root and one of its
-   References is the root (what _enveloped_signature_ok of sigver.py demands of
-   a protocol message, Model/Xmlsec.v precheck) *)
-Definition first_sig_is_own (doc : tree) (nm : N) : bool :=
-  match doc with
-  | El _ _ _ kids =>
-      match first_sig doc with
-      | Some [k] => match nth_error kids k with
-                    | Some (Sg refs _ _) => covers_root (registered nm doc []) refs
-                    | _ => false
-                    end
-      | _ => false
-      end
-  | Sg _ _ _ => false
-  end.
-
 (* a source whose `signed` flag and verification outcome are those of the
    document with signature layout doc; everything else as in s *)
-Definition signed_source (s : source) (dupfail : bool) (doc : tree) (nm cert : N) : source :=
+Definition signed_source_prechecked (s : source) (dupfail : bool) (doc : tree) (nm cert : N) : source :=
   {| s_key := s_key s; s_kind := s_kind s; s_cert := s_cert s; s_check := s_check s; s_http_ok := s_http_ok s;
-     s_verdict := md_verdict dupfail doc nm cert;
+     s_verdict := md_verdict_prechecked dupfail doc nm cert;
+     s_doc := {| d_signed := root_signed doc; d_body := d_body (s_doc s) |} |}.
+Definition signed_source_before_fix (s : source) (dupfail : bool) (doc : tree) (nm cert : N) : source :=
+  {| s_key := s_key s; s_kind := s_kind s; s_cert := s_cert s; s_check := s_check s; s_http_ok := s_http_ok s;
+     s_verdict := md_verdict_before_fix dupfail doc nm cert;
      s_doc := {| d_signed := root_signed doc; d_body := d_body (s_doc s) |} |}.
 
 (* ---------- observable of the correspondence unit `wrapped` ---------- *)
@@ -102,29 +142,16 @@ Definition remote_stub (cert : bool) (es : list entity) : source :=
 
 (* (dup policy, document, registered element name, certificate key, certificate configured?) ->
    [signed()?; load registers the source?; the root's own signature verifies?] *)
-Definition run_wrapped (c : bool * tree * N * N * bool) : val :=
-  let '(dupfail, doc, nm, cert, has_cert) := c in
-  let s := signed_source (remote_stub has_cert []) dupfail doc nm cert in
-  VL [VB (root_signed doc);
-      VB (match load_source 0 s with Ok _ => true | Err _ => false end);
-      VB (own_signature_ok doc nm cert)].
-
-(* ---------- NOT the code the check expects (/repo + proposed_fix/C16-1) ----------
-   The loader with the follow-up proposed_fix/C16-2-after-C01-1: before the tool
-   is called, sigver._enveloped_signature_ok (Model/Xmlsec.v precheck) is asked
-   about the root element and the root's own ID.  Kept here so that, once that
-   follow-up lands, the unit `wrapped` is switched by naming this observable. *)
-Definition root_id (doc : tree) : option str :=
-  match doc with El _ i _ _ => i | Sg _ _ _ => None end.
-Definition md_verdict_prechecked (dupfail : bool) (doc : tree) (nm cert : N) : result bool :=
-  if precheck doc nm (root_id doc) then md_verdict dupfail doc nm cert else Err SignatureError.
-Definition signed_source_prechecked (s : source) (dupfail : bool) (doc : tree) (nm cert : N) : source :=
-  {| s_key := s_key s; s_kind := s_kind s; s_cert := s_cert s; s_check := s_check s; s_http_ok := s_http_ok s;
-     s_verdict := md_verdict_prechecked dupfail doc nm cert;
-     s_doc := {| d_signed := root_signed doc; d_body := d_body (s_doc s) |} |}.
 Definition run_wrapped_prechecked (c : bool * tree * N * N * bool) : val :=
   let '(dupfail, doc, nm, cert, has_cert) := c in
   let s := signed_source_prechecked (remote_stub has_cert []) dupfail doc nm cert in
+  VL [VB (root_signed doc);
+      VB (match load_source 0 s with Ok _ => true | Err _ => false end);
+      VB (own_signature_ok doc nm cert)].
+(* the same for the loader before the repair (history; not compared any more) *)
+Definition run_wrapped_before_fix (c : bool * tree * N * N * bool) : val :=
+  let '(dupfail, doc, nm, cert, has_cert) := c in
+  let s := signed_source_before_fix (remote_stub has_cert []) dupfail doc nm cert in
   VL [VB (root_signed doc);
       VB (match load_source 0 s with Ok _ => true | Err _ => false end);
       VB (own_signature_ok doc nm cert)].
